@@ -715,3 +715,5 @@ PROPS["C13"]["rule"] += " OS part: what the addresser returns is compared with t
 PROPS["C10"]["rule"] += " After a recoverable fault the re-dialled connection must be used (an advertiser sends its initial RA on it, unless the stop came first); a fatal fault of the 'other' kind must be named by the error Run returns."
 
 PROPS["C04"]["rule"] += " The own RA handed to the inconsistency hook must be the one of that instant (forwarding as it is when the other router's RA is handled), not merely one of the two possible RAs."
+
+PROPS["C18"]["rule"] += " Wire-image part: a mutated image that still parses as an RA is judged on every monitor series (flags, default-route expiry, per-prefix flags and expiries at a fixed receipt time) against the same model as the message sequences; options whose prefix has host bits set or an impossible length are left out."
